@@ -475,10 +475,14 @@ Non-trivial = a token with >= 2 observed tags in a category.",
         n,
         || {
             use proptest::prelude::*;
-            prop_oneof![
-                1 => train::train_case(TrainGenCfg { max_sentences: 6, max_len: 8, tame: false, tag_dict: true, tag_focus: false }),
-                3 => train::train_case(TrainGenCfg { max_sentences: 8, max_len: 8, tame: false, tag_dict: true, tag_focus: true }),
-            ]
+            (
+                prop_oneof![
+                    1 => train::train_case(TrainGenCfg { max_sentences: 6, max_len: 8, tame: false, tag_dict: true, tag_focus: false }),
+                    3 => train::train_case(TrainGenCfg { max_sentences: 8, max_len: 8, tame: false, tag_dict: true, tag_focus: true }),
+                ],
+                any::<u16>(),
+            )
+                .prop_map(|(c, salt)| if salt % 2 == 0 { train::with_whitespace_tokens(c, salt) } else { c })
         },
         test_tool,
     );
